@@ -3,7 +3,9 @@
 Structure: value class (x < 2^64: primitive fast path; 2^64..2^1024: finite f64 guess; > 2^1024:
 scaled recursive guess or the 1<<max_bits fallback; the to_f64 overflow edge 2^1024 - 2^970)
 x shape (random, perfect power r^n, r^n +- 1, powers of two, all-ones) x degree
-(1,2,3,4,5,7,16,63,64,65, bits-1, bits, bits+1, u32::MAX, 0) x sign (BigInt).
+(1,2,3,4,5,7,16,63,64,65, bits-1, bits, bits+1, u32::MAX, 0) x sign (BigInt);
+plus a few 300..1200-digit operands so that the multiplications/divisions inside the Newton closures reach
+Karatsuba, Toom-3 and long Knuth division (the model column is the digit-level model NB.Model.RootsD).
 """
 from genlib import *
 
@@ -134,6 +136,20 @@ def gen(rng, tier):
                 p = r ** n
                 for x in (p - 1, p, p + 1):
                     emit(reqs, rng, x, n)
+    # -- large operands (300..1200 digits): the BigUint operators inside the closures leave the schoolbook
+    #    regime -- s*s and s.pow(n-1) go through Karatsuba / half-Karatsuba / Toom-3 (smaller factor > 256
+    #    digits for cbrt at 800 and n=4 at 1100 digits), self / .. through long Knuth divisions.  The driver's
+    #    model column runs these on digit lists (NB.Model.RootsD), so they are kept few.
+    big = [(300, 2), (800, 3), (1100, 4), (700, 5)]
+    if thorough:
+        big += [(520, 2), (900, 3), (1200, 4), (400, 7), (600, 6), (330, 2), (790, 3)]
+    for nd, n in big:
+        x = rand_bits(rng, 64 * nd - rng.randrange(64))
+        emit(reqs, rng, x, n, signed_too=False)
+        if thorough or n == 3:
+            r = rand_bits(rng, (64 * nd) // n)
+            for x in (r ** n - 1, r ** n):
+                emit(reqs, rng, x, n, signed_too=False)
     return reqs
 
 
